@@ -31,9 +31,12 @@ var c17Patterns = map[string][]float64{
 	"ten":      {20, 21, 22, 23, 24, 25, 26, 27, 500, 1},
 	"ties":     {3, 3, 5, 5, 5, 7},
 	"midout":   {19, 10, 11, 12, 13, 14}, // 19 lies between the 1.0·IQR and the 1.5·IQR fence
+	// the quartiles coincide although the values are not all equal: the fence is a single point (needs ≥7 values)
+	"flatstray": {3, 3, 3, 3, 40, 3, 3, 3, 3, 3},
+	"flatboth":  {0.5, 3, 3, 3, 3, 3, 3, 3, 96},
 }
 
-var c17PatternNames = []string{"single", "two", "constant", "zeros", "incr", "outlier", "lowout", "ten", "ties", "midout"}
+var c17PatternNames = []string{"single", "two", "constant", "zeros", "incr", "outlier", "lowout", "ten", "ties", "midout", "flatstray", "flatboth"}
 
 type c17Spec struct {
 	Configs  int
@@ -750,7 +753,7 @@ func c17LargeSpecs(thorough bool) []c17Spec {
 			rev[i] = names[n-1-i]
 		}
 		for _, lay := range [][][]string{{scr, rev}, {rev, scr}, {names, scr}} {
-			for _, pp := range [][2]string{{"single", "single"}, {"incr", "incr"}, {"constant", "incr"}, {"ties", "two"}} {
+			for _, pp := range [][2]string{{"single", "single"}, {"incr", "incr"}, {"constant", "incr"}, {"ties", "two"}, {"flatstray", "flatstray"}, {"flatboth", "constant"}, {"incr", "flatboth"}} {
 				for _, sh := range [][]float64{{1, 1}, {1, 1.25}} {
 					specs = append(specs, c17Spec{Configs: 2, Layout: lay, Units: []string{"ns/op"}, Pats: pp[:], Shift: sh})
 				}
